@@ -432,15 +432,25 @@ fn run_fault<K: Kit>(sc0: &Scenario, f: &Fault, rep: &mut Report) {
     }
 }
 
+/// Longest call sequence explored (tree planners: 5-letter menu; PRM: 8-letter menu). PRM needs 5
+/// calls for setup, construct, solve, set_problem_definition, solve.
+fn seq_bounds(thorough: bool) -> (usize, usize) {
+    if thorough {
+        (7, 6)
+    } else {
+        (5, 5)
+    }
+}
+
 /// The exploration itself (shared by `mc check C08` and the history half of `mc check C02`).
 pub fn explore(prop: &'static str, tier: &'static str) -> Report {
     let thorough = tier != "quick";
-    let h = if thorough { 6 } else { 5 };
+    let (h, h_prm) = seq_bounds(thorough);
     let mut jobs: Vec<(Scenario, usize)> = Vec::new();
     for kit in KITS {
         for pk in Pk::ALL {
             let sc = api_scenario(kit, pk);
-            let hh = if pk == Pk::Prm { h - 1 } else { h };
+            let hh = if pk == Pk::Prm { h_prm } else { h };
             for len in 1..=hh {
                 jobs.push((sc.clone(), len));
             }
@@ -503,7 +513,7 @@ pub fn explore(prop: &'static str, tier: &'static str) -> Report {
 
 pub fn run(prop: &'static str, tier: &'static str) -> i32 {
     let t0 = Instant::now();
-    let h = if tier != "quick" { 6 } else { 5 };
+    let (h, h_prm) = seq_bounds(tier != "quick");
     let rep = explore(prop, tier);
     let meta = CheckMeta {
         prop,
@@ -515,7 +525,7 @@ pub fn run(prop: &'static str, tier: &'static str) -> i32 {
             "the call-sequence exploration of C08 judged by C02's oracle: whenever a solve returns a path it starts bit-for-bit at the start of the most recently installed problem and ends in that problem's goal"
         },
         exhaustive: true,
-        bounds: json!({"max_sequence_length": h, "max_sequence_length_prm": h - 1}),
+        bounds: json!({"max_sequence_length": h, "max_sequence_length_prm": h_prm}),
         assumptions: vec!["scripted seams; logical clock budgets".into(), "P2 is P1 reversed (start at the goal centre, goal around the old start); the invalid start lies inside a far-away obstacle".into()],
         must_be_positive: if prop == "C08" { vec!["solve_Ok", "solve_PlannerUninitialised", "solve_InvalidStartState", "solve_UnsampledStateSpace", "ok_paths_for_replaced_problem", "fault_cases"] } else { vec!["ok_paths_checked", "ok_paths_for_replaced_problem"] },
     };
